@@ -190,6 +190,8 @@ TwinHistCfgs(r) == IF r = "A" THEN {[BaseCfg EXCEPT !.ctl = c, !.pen = p, !.algK
 (* simulation / replay space: one run, every controller, policy, limit, deadline and display mode *)
 SimCfgs(r) == {[BaseCfg EXCEPT !.ctl = c, !.pen = p, !.limit = l, !.deadline = d, !.display = ds, !.collectPath = TRUE] :
                  c \in Ctls, p \in Pens, l \in {NoLimit, 0, 1, 2, 3, 4}, d \in {NoDeadline} \cup 2..14, ds \in {"never", "always", "clock"}}
+(* liveness: only limited runs, so the state space is finite without a state constraint *)
+LiveCfgs(r) == {[BaseCfg EXCEPT !.ctl = c, !.pen = p, !.limit = l] : c \in {"Exact", "DistRatio"}, p \in {"DualNorm", "ObjFilter"}, l \in {0, 1, 2}}
 (* quick-tier spaces *)
 QDeadlineCfgs(r) == {[BaseCfg EXCEPT !.ctl = c, !.deadline = d, !.display = ds] :
                       c \in {"Exact", "DistRatio"}, d \in 1..6, ds \in {"never", "clock"}}
